@@ -22,6 +22,11 @@ DEMO="n/a"
 if [ -f "$SD/demo.py" ]; then
   ( cd "$SD" && PYTHONPATH="$WT" timeout 600 /venv/bin/python demo.py >/dev/null 2>&1 ); DEMO=$?
 fi
+if [ "$DEMO" = "0" ]; then
+  # the stored change no longer breaks the property on this tree (a later repair of the library made it
+  # harmless): keep the last transcript taken while it did, note the fact next to it
+  echo "$SID: the change applies to repo HEAD $(git -C /repo rev-parse --short HEAD) but its demonstration exits 0: neutralised by a repair of the library" | tee "$SD/recheck.na.txt"; exit 4
+fi
 {
   echo "repo HEAD: $(git -C /repo rev-parse --short HEAD)   verif HEAD: $(git -C /verif rev-parse --short HEAD)"
   echo "demo with the change: exit $DEMO (expected non-zero)"
